@@ -217,7 +217,8 @@ class Supercell(PhonopyAtoms):
             )
         else:
             # In the new style, it is unnecessary to trim atoms,
-            if (np.diag(np.diagonal(mat)) != mat).any():
+            is_diag = (np.diag(np.diagonal(mat)) == mat).all()
+            if not is_diag or (np.diagonal(mat) < 0).any():
                 snf = SNF3x3(mat)
                 snf.run()
                 P = snf.P
